@@ -170,7 +170,7 @@ func arUnits() []*big.Int {
 // method's real unit, so the units that divide it are the relevant ones and canonical / u is a valid quotient (u = 1:
 // canonical + k*2^b, the value narrowed without a division). Quick tier: the relevant units, j = 1 and canonical / u,
 // k = -1, 1, 2 at 8 bits and k = 1 at the wider widths. full: every unit, also j = 0, 2, the number of staking periods,
-// the length of the weights table, and k = -1, 1, 2, 3 at every width.
+// the length of the weights table, and k = -1, 1, 2 at every width.
 func arAlignedFamily(canonical *big.Int, full bool) []*big.Int {
 	var out []*big.Int
 	maxUnits := int64(12)
@@ -199,7 +199,7 @@ func arAlignedFamily(canonical *big.Int, full bool) []*big.Int {
 			for _, b := range []uint{8, 16, 31, 32, 63, 64} {
 				ks := []int64{1}
 				if full {
-					ks = []int64{-1, 1, 2, 3}
+					ks = []int64{-1, 1, 2}
 				} else if b == 8 {
 					ks = []int64{-1, 1, 2}
 				}
@@ -576,12 +576,23 @@ func (w *arWorld) runIntSweep(part, parts int) {
 				limit := new(big.Int).Div(bal, big.NewInt(40))
 				fam := append([]*big.Int{}, sw.base...)
 				fam = append(fam, sw.stateFamily(ca.addr, probe)...)
+				inBase := map[string]bool{}
+				for _, v := range fam {
+					inBase[v.String()] = true
+				}
 				if probe.amount != nil && probe.amount.Sign() > 0 { // a method that takes an amount: whole multiples of the units, as above
 					fam = append(fam, arAlignedFamily(probe.amount, c.Tier == "thorough")...)
 				}
+				budget := new(big.Int).Div(bal, big.NewInt(20)) // what the aligned amounts of this method may move together, smallest first
 				for _, v := range arSortUniq(fam) {
 					if v.Sign() < 0 {
 						continue
+					}
+					if !inBase[v.String()] {
+						if v.Cmp(budget) > 0 {
+							continue
+						}
+						budget.Sub(budget, v)
 					}
 					near := probe.amount != nil && new(big.Int).Abs(new(big.Int).Sub(v, probe.amount)).Cmp(big.NewInt(1)) <= 0
 					atBal := new(big.Int).Abs(new(big.Int).Sub(v, bal)).Cmp(big.NewInt(1)) <= 0
